@@ -85,7 +85,7 @@ Definition peer_ok (h : hist) (e : event) (o : sobs) (p : N) : bool :=
       all_to o p (fun a => existsb (addr_eqb a) srcs || oaddr_eqb (Some a) before)
   | EUapi _ q a _ =>
       (if q =? p then oaddr_eqb after (Some a) else negb moved) && to_after
-  | ECookie _ _ | EOther _ _ | ETun _ _ _ | EShiftHs _ _ | ERestart _ | ESetNonce _ => negb moved && to_after
+  | ECookie _ _ | EOther _ _ | ETun _ _ _ | EShiftHs _ _ | ERestart _ | ESetNonce _ | EAgeKeys _ => negb moved && to_after
   end.
 
 Definition step_ok (h : hist) (e : event) (o : sobs) : bool :=
